@@ -418,7 +418,8 @@ def rule_anchor(chk, w):
     for bi, r in rets:
         if r is None:
             ok_all = False
-            why.append("return value not a plain local")
+            why.append("a value that is not the tested candidate is returned (return site in block %d): it has "
+                       "passed neither the range test nor the age cap" % bi)
             continue
         lo = _holds(b, du, bi, "Ge", r, lambda o: o == ("arg", 1))
         hi = _holds(b, du, bi, "Le", r, lambda o: o == ("arg", 2))
